@@ -64,6 +64,9 @@ const (
 	vfPfExcl   = 0x20
 
 	vfMaxFrame = 256 * 1024
+	// A server whose payload limit was raised emits DATA frames longer than the 256 KiB it accepts itself;
+	// the observers that split a tapped stream into frames must not stop counting there.
+	vfMaxTapFrame = 1 << 24
 
 	vfExtStatVFS     = "statvfs@openssh.com"
 	vfExtPosixRename = "posix-rename@openssh.com"
@@ -491,7 +494,7 @@ func vfDecodeBody(body []byte) (p *vfPkt, rest []byte, err error) {
 func vfSplitFrames(stream []byte) (bodies [][]byte, tail []byte, bad bool) {
 	for len(stream) >= 4 {
 		n := binary.BigEndian.Uint32(stream)
-		if n == 0 || n > vfMaxFrame {
+		if n == 0 || n > vfMaxTapFrame {
 			return bodies, stream, true
 		}
 		if uint64(len(stream)-4) < uint64(n) {
